@@ -135,6 +135,11 @@ def forward(m0: int, m1: int, m2: int, p0: int, p1: int, c0: int, v0: int, v1: i
             cs.inq.append(b'GET http://h.example/first HTTP/1.1\r\nHost: h.example\r\n\r\n')
             if run(h.handle_events([cs.fd], [])):
                 return fail('teardown on the first request')
+            if second == 'after_chunked':
+                # ... and a chunked POST as second request: the request under test is the THIRD of the connection
+                cs.inq.append(b'POST http://h.example/second HTTP/1.1\r\nHost: h.example\r\nTransfer-Encoding: chunked\r\n\r\n2\r\nzz\r\n0\r\n\r\n')
+                if run(h.handle_events([cs.fd], [])):
+                    return fail('teardown on the second request')
     skipn = len(envkit.pending(h.plugin.upstream)) if second else 0
     pieces = []
     prev = 0
@@ -216,6 +221,7 @@ def obligations(tier):
         nm = '%s.b%d%s' % (fr, bl, ('.' + 'x'.join(map(str, lay))) if lay else '')
         add('body.%s' % nm, method=1, framing=fr, blen=bl, layout=lay)
         add('body.%s.second' % nm, method=1, framing=fr, blen=bl, layout=lay, second=True)
+        add('body.%s.third' % nm, method=1, framing=fr, blen=bl, layout=lay, second='after_chunked')
         add('body.%s.lower' % nm, method=1, framing=fr, blen=bl, layout=lay, lower=True)
         add('body.%s.lower.second' % nm, method=1, framing=fr, blen=bl, layout=lay, lower=True, second=True)
         # segmentation: every cut position in the body region, a few in the head
@@ -254,7 +260,7 @@ META = {
                  'leading space) plus optional Proxy-Connection, Proxy-Authorization and two operator-disabled headers; body none / '
                  'Content-Length 0,1,3 symbolic bytes / chunked layouts [],[1],[2,1],[3], framing header name spelled canonically or in lower case with a '
                  'symbolic-case first letter; delivered whole and cut at every position of the body '
-                 'region and selected head positions; as first and as second request of the connection',
+                 'region and selected head positions; as first, as second and (after a chunked second request) as third request of the connection',
         'thorough': 'plus every pair of cuts in the body region',
     },
     'outside': 'header values with internal whitespace, obs-fold, duplicate names (excluded by the property); more than 3 body bytes; '
